@@ -100,6 +100,7 @@ class DAGRunConcurrentManager(DAGRunManagerLike):
     _memorization_store: t.Dict[t.Any, t.Any] = field(default_factory=dict)
     _coro_tasks: t.Set[asyncio.Task] = field(default_factory=set)
     _released_oneof_children: t.Set[NodeId] = field(default_factory=set)
+    _additional_data: t.Dict[NodeId, t.Any] = field(default_factory=dict)
     _alias_run_method: str = 'run'
 
     def __post_init__(self) -> None:
@@ -211,7 +212,7 @@ class DAGRunConcurrentManager(DAGRunManagerLike):
         else:
             kwargs = self.ctx.input_kwargs
 
-        additional_data = self.dag.graph.nodes[node_id].get(NodeField.additional_data)
+        additional_data = self._additional_data.get(node_id)
 
         if additional_data is not None:
             kwargs[NodeField.additional_data] = additional_data
@@ -754,8 +755,8 @@ class DAGRunConcurrentManager(DAGRunManagerLike):
             name = f'Recurrent-subgraph[attempt={current_iter}] {start_from_node_id} --> {node_id}'
             logger.debug('Executing the %s', name)
 
-            start_node = self.dag.graph.nodes[start_from_node_id]
-            start_node[NodeField.additional_data] = node_result.data
+            # The graph is shared by all runs of the DAG, so the data is kept in the run manager
+            self._additional_data[start_from_node_id] = node_result.data
 
             node_result = await self._run_dag(dag=recurrent_subgraph)
 
